@@ -29,12 +29,12 @@ var fieldProps = []struct {
 	{"ake.", "C01 C06 C07 C08 C13"},
 	{"akeKeys.", "C01 C08"},
 	{"Conversation.keys", "C04 C05 C08 C09"},
-	{"keyManagementContext.", "C04 C05 C08 C09"},
+	{"keyManagementContext.", "C04 C05 C08 C09 C10"},
 	{"dhKeyPair.", "C04 C08"},
 	{"macKeyHistory.", "C09 C19"},
 	{"macKeyUsage.", "C09"},
 	{"counterHistory.", "C05 C19"},
-	{"keyPairCounter.", "C04 C05"},
+	{"keyPairCounter.", "C04 C05 C10"},
 	{"Conversation.theirKey", "C01 C11"},
 	{"Conversation.ourCurrentKey", "C01 C11"},
 	{"Conversation.ourKeys", "C01 C11"},
@@ -53,8 +53,8 @@ var fieldProps = []struct {
 	{"smp2State.", "C11 C12 C13"},
 	{"smp3State.", "C11 C12 C13"},
 	{"smp4State.", "C11 C12 C13"},
-	{"Conversation.resend", "C03 C18 C19"},
-	{"resendContext.", "C03 C18 C19"},
+	{"Conversation.resend", "C03 C06 C18 C19"},
+	{"resendContext.", "C03 C06 C18 C19"},
 	{"Conversation.injections", "C06 C19"},
 	{"injections.", "C06 C19"},
 	{"Conversation.heartbeat", "C04 C06 C19"},
@@ -69,6 +69,53 @@ func propsOfField(key string) string {
 		}
 	}
 	return ""
+}
+
+// fieldCanRetain: whether a value of the field's type can hold bytes or a reference to other storage (anything but
+// booleans, numbers, strings of the program's own constants excluded: strings can hold user text, so they count).
+func (a *An) fieldCanRetain(key string) bool {
+	i := strings.Index(key, ".")
+	if i < 0 {
+		return true
+	}
+	obj := a.C.Otr.Pkg.Scope().Lookup(key[:i])
+	if obj == nil {
+		return true
+	}
+	st, ok := obj.Type().Underlying().(*types.Struct)
+	if !ok {
+		return true
+	}
+	for j := 0; j < st.NumFields(); j++ {
+		if st.Field(j).Name() != key[i+1:] {
+			continue
+		}
+		var retains func(t types.Type, d int) bool
+		retains = func(t types.Type, d int) bool {
+			if d > 4 {
+				return true
+			}
+			switch u := t.Underlying().(type) {
+			case *types.Basic:
+				return u.Info()&types.IsString != 0
+			case *types.Struct:
+				if t.String() == "time.Time" {
+					return false
+				}
+				for k := 0; k < u.NumFields(); k++ {
+					if retains(u.Field(k).Type(), d+1) {
+						return true
+					}
+				}
+				return false
+			case *types.Array:
+				return true
+			}
+			return true
+		}
+		return retains(st.Field(j).Type(), 0)
+	}
+	return true
 }
 
 // currentWriters: "Type.field" → sorted owner names of the functions with a direct store to the field.
@@ -182,7 +229,13 @@ func (a *An) closedTables(prop string) {
 		}
 		return m
 	}()) {
-		if !strings.Contains(propsOfField(key), prop) {
+		props := propsOfField(key)
+		if _, known := frozenWriters[key]; props == "" && !known && a.fieldCanRetain(key) {
+			// a new field of a state type that can hold bytes (text, key material) or a reference to them: the
+			// conversation now keeps something it did not keep before
+			props = "C08"
+		}
+		if !strings.Contains(props, prop) {
 			continue
 		}
 		nf++
@@ -354,6 +407,8 @@ func genTables(a *An) {
 		fmt.Printf("\t%q: {%s},\n", k, strings.Join(q, ", "))
 	}
 	fmt.Println("}")
+	genGates(a)
+	genEraseSites(a)
 }
 
 // ---- events ---------------------------------------------------------------------------------------------------
